@@ -46,9 +46,13 @@ pub struct Case {
 
 fn msg_len(class: u8) -> usize {
     let (f1, f) = c01::capacities();
+    if f1 > 16384 {
+        // real (large) packets: everything a client sends before accept must fit the kernel buffer
+        return if class == 0 { 64 } else { 20_000 };
+    }
     match class {
         0 => 64,
-        k => (f1 + (k as usize - 1) * f + 33).min(120_000),
+        k => f1 + (k as usize - 1) * f + 33,
     }
 }
 
